@@ -247,3 +247,30 @@ theorem fieldVal_aligned (B : Bytes) (p n : Nat) (h : p + n ≤ 8 * B.length) (h
   exact h1.symm
 
 end Spp
+
+namespace Spp
+
+theorem readAsInt_spec (B : Bytes) (p n : Nat) (h : p + n ≤ 8 * B.length) :
+    readAsInt ⟨B, p⟩ (n : Int) = .ok (fieldVal B p n, ⟨B, p + n⟩) := by
+  unfold readAsInt
+  rw [if_neg (by omega)]
+  simp only [Int.toNat_natCast]
+  rw [extractBits_spec B p n h]
+
+theorem readAsBytes_spec (B : Bytes) (p n : Nat) (h : p + n ≤ 8 * B.length) :
+    readAsBytes ⟨B, p⟩ (n : Int) = .ok (toBytesBE ((n + 7) / 8) (fieldVal B p n), ⟨B, p + n⟩) := by
+  unfold readAsBytes
+  rw [if_neg (by omega)]
+  simp only [Int.toNat_natCast]
+  rw [if_neg (by omega)]
+  split
+  · rename_i hal
+    have hend : p / 8 + (n + 7) / 8 ≤ B.length := by omega
+    have hsl := slice_length B (p / 8) (p / 8 + (n + 7) / 8) hend
+    rw [fieldVal_aligned B p n h hal.1 hal.2]
+    have := toBytesBE_fromBytesBE (slice B (p / 8) (p / 8 + (n + 7) / 8))
+    rw [hsl, Nat.add_sub_cancel_left] at this
+    rw [this]
+  · rw [extractBits_spec B p n h]
+
+end Spp
